@@ -166,7 +166,7 @@ func VerifC14_Relay() {
 		if i < free {
 			a.assignee, a.sender = sym.Choice("assignee", 2), sym.Choice("sender", 2)
 		}
-		a.valset = i == 1 && sym.Bool("is-valset-update")
+		a.valset = i < 2 && sym.Bool("is-valset-update") // up to two pending validator-set updates
 		var msg *evmtypes.Message
 		if a.valset {
 			msg = &evmtypes.Message{TurnstoneID: "c", ChainReferenceID: ChainA, Assignee: Vals[a.assignee].String(), AssigneeRemoteAddress: models.EthAddrs[a.assignee], AssignedAtBlockHeight: sdkmath.NewInt(100),
